@@ -103,6 +103,7 @@ func sameOperand(a, b ssa.Value) bool {
 }
 
 func runC15(c *Ctx) {
+	runC15Extra(c)
 	// ---- transfer handler
 	if th := c.mustFn("service/contract", "TransferHandler", "DoExecuteSync"); th != nil {
 		var debit, credit callSite
@@ -435,4 +436,118 @@ func flowsIntoAny(v ssa.Value, c *Ctx, fn *ssa.Function, method string) bool {
 		}
 	}
 	return false
+}
+
+// runC15Extra: rules added after independently produced mutants were missed.
+func runC15Extra(c *Ctx) {
+	mutators := map[string]bool{"Add": true, "Sub": true, "Mul": true, "Div": true, "Quo": true, "Rem": true, "Mod": true, "Neg": true, "Set": true, "SetInt64": true, "SetUint64": true, "SetBytes": true, "SetString": true, "Abs": true, "Lsh": true, "Rsh": true, "Exp": true, "And": true, "Or": true, "Xor": true, "Not": true, "SetBit": true}
+	// (1) a balance obtained from an account is shared with its snapshots: it is never updated in place
+	nSites := 0
+	for _, pk := range []string{"service/contract", "service/transaction", "service"} {
+		if c.L.SSAPkgs[modPath+"/"+pk] == nil {
+			continue
+		}
+		for _, fn := range c.pkgFuncs(pk) {
+			for _, b := range fn.Blocks {
+				for _, in := range b.Instrs {
+					cl, ok := in.(*ssa.Call)
+					if !ok || !strings.HasPrefix(calleeName(cl.Common()), "(*math/big.Int).") || !mutators[methodName(cl.Common())] {
+						continue
+					}
+					r, _ := callArgs(cl.Common())
+					shared := false
+					for _, fl := range flowsOf(r, nil) {
+						if src, isCall := fl.Src.(*ssa.Call); isCall && methodName(src.Common()) == "GetBalance" {
+							shared = true
+						}
+					}
+					nSites++
+					if shared {
+						c.violate("C15.no-alias", "balances are replaced, never updated in place", cl.Pos(), fnName(fn)+" calls "+methodName(cl.Common())+" on the *big.Int returned by GetBalance(): that object is shared with every snapshot taken so far, so a rollback restores the already-changed value")
+					}
+				}
+			}
+		}
+	}
+	c.check(nSites >= 20, "C15.no-alias", "big.Int update sites scanned", token.NoPos, fmt.Sprint(nSites), fmt.Sprintf("only %d sites", nSites))
+	// (3) steps used never exceed the limit of the frame
+	if fn := c.fn("service/contract", "callFrame", "deductSteps"); fn != nil {
+		n := 0
+		for _, e := range exitAlts(fn) {
+			if !isConstBool(e.Results[0], false) {
+				continue
+			}
+			n++
+			okC := false
+			for _, cs := range c.calls(fn, byCallee("(*math/big.Int).Set")) {
+				r, a := callArgs(cs.Common())
+				if strings.HasSuffix(render(r), "$r.stepUsed") && strings.HasSuffix(render(a[0]), "$r.stepLimit") && dominatesInstr(cs.Instr, e.Ret) {
+					okC = true
+				}
+			}
+			c.check(okC, "C15.charged-equals-reported", "an overrun clamps the steps used to the step limit", e.pos(), "stepUsed.Set(stepLimit)", "deductSteps reports an overrun without clamping stepUsed to the limit: the transaction is charged and reports more steps than its stepLimit")
+		}
+		c.check(n >= 1, "C15.charged-equals-reported", "deductSteps has an overrun exit", fn.Pos(), fmt.Sprint(n), "no overrun exit")
+	} else if c.L.SSAPkgs[modPath+"/service/contract"] != nil {
+		c.undecided("anchor", "service/contract.callFrame.deductSteps", token.NoPos, "anchor function not found")
+	}
+	// (4) the handler gets the transaction's value whenever there is one
+	if fn := c.fn("service/transaction", "transactionV3", "GetHandler"); fn != nil {
+		for _, cs := range c.calls(fn, byCallee("transaction.NewHandler")) {
+			_, a := callArgs(cs.Common())
+			if len(a) < 5 {
+				continue
+			}
+			okV := true
+			n := 0
+			for _, fl := range flowsOf(a[4], nil) {
+				n++
+				src := render(fl.Src)
+				if strings.Contains(src, "$r.transactionV3Data.Value") {
+					continue
+				}
+				// the substitute (zero) only when there is no value
+				if _, none := holds(fl.Guards, wSame("no value", `^\$r\.transactionV3Data\.Value$`, `^nil`)); !none {
+					okV = false
+				}
+			}
+			c.check(okV && n >= 1, "C15.transfer-pair", "the handler receives the transaction's value whenever it carries one", cs.Pos(), "value = tx.Value (zero only if absent)", "a transaction that carries a value can be executed with value 0 (e.g. depending on its dataType): it succeeds without moving the ICX")
+		}
+	}
+	// (5) the fee is only ever steps × price, or zero
+	if ex := c.fn("service/transaction", "transactionHandler", "Execute"); ex != nil {
+		var fee ssa.Value
+		for _, cs := range c.calls(ex, byMethod("SetBalance")) {
+			_, a := callArgs(cs.Common())
+			if _, y, ok := bigBin(a[0], "Sub"); ok {
+				fee = unwrap(y)
+			}
+		}
+		if fee != nil {
+			n := 0
+			for _, b := range ex.Blocks {
+				for _, in := range b.Instrs {
+					cl, ok := in.(*ssa.Call)
+					if !ok || !strings.HasPrefix(calleeName(cl.Common()), "(*math/big.Int).") || !mutators[methodName(cl.Common())] {
+						continue
+					}
+					r, a := callArgs(cl.Common())
+					if unwrap(r) != fee {
+						continue
+					}
+					n++
+					okW := false
+					switch methodName(cl.Common()) {
+					case "Mul":
+						okW = true
+					case "SetInt64":
+						k, isK := constInt(a[0])
+						okW = isK && k == 0
+					}
+					c.check(okW, "C15.charged-equals-reported", "the fee is only ever steps × price, or zero", cl.Pos(), methodName(cl.Common()), "the fee is overwritten by "+methodName(cl.Common())+"("+render(a[0])+"): the amount charged no longer equals the steps and price reported in the receipt")
+				}
+			}
+			c.check(n >= 2, "C15.charged-equals-reported", "fee update sites", ex.Pos(), fmt.Sprint(n), fmt.Sprintf("%d sites", n))
+		}
+	}
 }
